@@ -52,7 +52,7 @@ func (p *Path) base() *Term {
 	}
 	b := p.freshVar("base", 64)
 	p.addInput("base#0", "u64", b)
-	p.assume(p.ctx.Cmp(OpUlt, b, p.ctx.Const(64, 1<<62)))
+	p.assume(p.ctx.Cmp(OpUlt, b, p.ctx.Const(64, 1<<61)))
 	p.ghost["__base"] = b
 	if !b.IsConst() {
 		p.ctx.Base = b
